@@ -91,8 +91,8 @@ impl LruManager {
         let idx = if let Some(free_idx) = self.free_list.pop() {
             free_idx
         } else {
-            // Evict LRU tail to make room
-            let Some(evicted) = self.evict_tail() else {
+            // Evict LRU tail to make room and reuse its slot directly
+            let Some(evicted) = self.detach_tail() else {
                 return false;
             };
             evicted
@@ -113,9 +113,18 @@ impl LruManager {
 
     /// Evict the least recently used entry (LRU tail).
     ///
-    /// Returns the freed slot index, or `None` if the list is empty.
-    ///
+    /// Returns the freed slot index, or `None` if the list is empty. The
+    /// slot is returned to the free list so that a later `touch` can reuse
+    /// it.
     pub fn evict_tail(&mut self) -> Option<u32> {
+        let freed = self.detach_tail()?;
+        self.free_list.push(freed);
+        Some(freed)
+    }
+
+    /// Unlink and clear the LRU tail without putting its slot on the free
+    /// list. The caller owns the returned slot (either reuses it or frees it).
+    fn detach_tail(&mut self) -> Option<u32> {
         let tail = self.header.lru_tail;
         if tail == LRU_SENTINEL {
             return None;
